@@ -44,7 +44,7 @@ let totality (fs : string list) : string =
     ("license", (fun () -> cls (Codecs.license_from_str s)));
     ("signature", (fun () -> cls (Codecs.signature_from_str s)));
     ("identity", (fun () -> cls (Codecs.parse_identity s)));
-    ("parsedvcs", (fun () -> cls (Vcs.parsed_vcs_from_str s)));
+    ("parsedvcs", (fun () -> cls (ByteVcs.parsed_vcs_from_str_b s)));   (* byte level: PANIC off a boundary *)
     ("vcsgit", (fun () -> cls (Vcs.vcs_from_field (str_of_hex "476974") s)));
   ] in
   let only = match fs with [_; o] -> Some (S.split_on_char ',' o) | _ -> None in
